@@ -24,8 +24,9 @@ enum { EV_ADD = 0, EV_RUN, EV_REPLY_OLDEST, EV_REPLY_NEWEST, EV_REPLY_DUP, EV_RE
        EV_ADD_CONF = EV_NEVENTS,   /* a configuration request: only in the alphabet of part "conf" */
        EV_GROW,                    /* the application enlarges the request cache at run time: only in part "dfs2" */
        EV_READD,                   /* the application submits a handle it got back once more (a new request with the same hash): only in part "readd" */
+       EV_SNDBUF_FULL,             /* the socket's send buffer is full at the next poll (the connection is not reported writable): only in part "sndbuf" */
        EV_NALL };
-static const char EVCH[EV_NALL + 1] = "ARonduxmseg1haCXPwp+TKGZ";
+static const char EVCH[EV_NALL + 1] = "ARonduxmseg1haCXPwp+TKGZf";
 
 typedef struct { int cache, maxreq; long long snd, rcv, con; } config_t;
 
@@ -61,7 +62,7 @@ typedef struct {
 	vbuf last_valid_reply; uint64_t last_valid_id; unsigned last_valid_seed;
 	uint64_t last_returned_id;
 	size_t budget;                  /* bytes the client may still read */
-	int next_connect_refused, next_connect_pending, send_wouldblock, send_partial;
+	int next_connect_refused, next_connect_pending, send_wouldblock, send_partial, sndbuf_full;
 	int cause_baddata, cause_status, cause_conn, cause_connect_pending, cause_connect_timeout;
 	time_t connect_started; int connecting;
 	long step;                      /* events applied so far */
@@ -76,7 +77,7 @@ static int g_keep;                 /* returned handles are kept for re-submissio
 static world_t W;
 static char g_hist[40];
 static int g_cfg;
-#define HF(sig, ...) do { char _m[900]; snprintf(_m, sizeof _m, __VA_ARGS__); vf_fail(sig, "%s [history %s cfg %d; letters ARonduxmseg1haCXPwp+T = add,run,reply-oldest,reply-newest,dup,unknown-id,stale-id,bad-mac,status,error-pdu,push-conf,deliver1,half,all,peer-close,refuse-next-connect,pending-connect,send-wouldblock,send-partial,clock+1,clock+big; K = add configuration request, G = grow cache, Z = re-add the handle returned last]", _m, g_hist, g_cfg); } while (0)
+#define HF(sig, ...) do { char _m[900]; snprintf(_m, sizeof _m, __VA_ARGS__); vf_fail(sig, "%s [history %s cfg %d; letters ARonduxmseg1haCXPwp+T = add,run,reply-oldest,reply-newest,dup,unknown-id,stale-id,bad-mac,status,error-pdu,push-conf,deliver1,half,all,peer-close,refuse-next-connect,pending-connect,send-wouldblock,send-partial,clock+1,clock+big; K = add configuration request, G = grow cache, Z = re-add the handle returned last, f = send buffer full at the next poll]", _m, g_hist, g_cfg); } while (0)
 
 /* ------------------------------------------------------------------ environment hooks */
 static int h_connect(sn_conn *c) {
@@ -144,7 +145,8 @@ static int h_poll(sn_conn *c, short events, short *revents) {
 		c->state = SN_CONNECTED; W.connecting = 0;
 	}
 	if (c->state == SN_CONNECTED) {
-		rev |= POLLOUT;
+		if (W.sndbuf_full) W.sndbuf_full = 0;   /* this once the send buffer is full */
+		else rev |= POLLOUT;
 		if ((c->in.n > c->in_off && W.budget > 0) || (c->in.n == c->in_off && c->peer_closed)) rev |= POLLIN;
 	}
 	*revents = rev;
@@ -537,6 +539,7 @@ static int apply_inner(int ev) {
 		case EV_NEXT_CONNECT_PENDING: if (c || W.connecting || W.next_connect_refused || W.next_connect_pending) return 0; W.next_connect_pending = 1; return 1;
 		case EV_SEND_WOULDBLOCK: if (W.send_wouldblock || W.send_partial) return 0; W.send_wouldblock = 1; return 1;
 		case EV_SEND_PARTIAL: if (W.send_wouldblock || W.send_partial) return 0; W.send_partial = 1; return 1;
+		case EV_SNDBUF_FULL: if (W.sndbuf_full || !c) return 0; W.sndbuf_full = 1; return 1;
 		case EV_CLOCK_1: sn_now += 1; return 1;
 		case EV_CLOCK_BIG: { long long m = W.cfg.snd; if (W.cfg.rcv > m && W.cfg.rcv < 1000000) m = W.cfg.rcv; if (W.cfg.con > m && W.cfg.con < 1000000) m = W.cfg.con; sn_now += (time_t)(m + 2); return 1; }   /* "never" time-outs (2^31 and more) are not waited for */
 	}
@@ -547,7 +550,7 @@ static int apply_inner(int ev) {
 static void drain(void) {
 	int rounds;
 	sn_conn *c;
-	W.send_wouldblock = W.send_partial = 0;
+	W.send_wouldblock = W.send_partial = W.sndbuf_full = 0;
 	for (rounds = 0; rounds < (W.cfg.rcv > 1000 ? 14 : 60) && (outstanding() > 0 || rounds < 3); rounds++) {
 		c = live_conn();
 		if (c) W.budget = c->in.n - c->in_off;
@@ -594,7 +597,7 @@ static uint64_t state_key(void) {
 		h = mix(h, c ? (uint64_t)c->state : 99);
 		if (c) { h = mix(h, c->peer_closed); h = mix(h, c->out.n - c->parsed_out); h = mix(h, c->in.n - c->in_off); h = vf_fnv(c->in.p + c->in_off, c->in.n - c->in_off, h); h = mix(h, c->connect_polls > 0); }
 	}
-	h = mix(h, W.budget); h = mix(h, (uint64_t)W.next_connect_refused); h = mix(h, (uint64_t)W.next_connect_pending); h = mix(h, (uint64_t)W.send_wouldblock); h = mix(h, (uint64_t)W.send_partial);
+	h = mix(h, W.budget); h = mix(h, (uint64_t)W.next_connect_refused); h = mix(h, (uint64_t)W.next_connect_pending); h = mix(h, (uint64_t)W.send_wouldblock); h = mix(h, (uint64_t)W.send_partial); h = mix(h, (uint64_t)W.sndbuf_full);
 	h = mix(h, (uint64_t)((W.cause_baddata != 0) | (W.cause_status != 0) << 1 | (W.cause_conn != 0) << 2 | (W.cause_connect_pending != 0) << 3 | (W.cause_connect_timeout != 0) << 6 | W.conf_pending << 4 | W.connecting << 5));
 	h = mix(h, (uint64_t)W.nreq); h = mix(h, (uint64_t)W.nreturned); h = mix(h, W.last_valid_reply.n != 0); h = mix(h, W.last_returned_id);
 	for (k = 0; k < W.nreq; k++) {
@@ -869,6 +872,29 @@ static void part_timeouts(void) {
 	}
 }
 
+/* a connection that is not writable for a round (send buffer full): nothing may be concluded from that but "not now" - neither a
+ * connection time-out on an established connection nor an error taken over from the input side */
+static void part_sndbuf(void) {
+	static const config_t SCFG[] = { {2, 2, 10, 10, 2}, {1, 1, 3, 5, 1}, {3, 1, 10, 10, 0} };
+	static const int ALPHA[] = {EV_ADD, EV_RUN, EV_SNDBUF_FULL, EV_REPLY_OLDEST, EV_DELIVER_1, EV_DELIVER_ALL, EV_CLOCK_1, EV_CLOCK_BIG, EV_PEER_CLOSE, EV_SEND_PARTIAL};
+	int ci, a2, depth = VF_THOROUGH ? 9 : 7, e, na = (int)(sizeof ALPHA / sizeof *ALPHA);
+	for (ci = 0; ci < 3; ci++) for (a2 = 0; a2 < na; a2++) {
+		int hist[16];
+		if (!vf_case_begin("sndbuf:cfg%d:A%c:d%d", ci, EVCH[ALPHA[a2]], depth)) continue;
+		g_nalpha = 0;
+		for (e = 0; e < na; e++) g_alpha[g_nalpha++] = ALPHA[e];
+		memset(seen, 0, ((size_t)1 << SEEN_BITS) * sizeof *seen);
+		n_states = n_transitions = n_pruned = n_traces = 0;
+		hist[0] = EV_ADD; hist[1] = ALPHA[a2];
+		explore(&SCFG[ci], hist, 2, depth);
+		vf_count("states", n_states); vf_count("transitions", n_transitions); vf_count("traces", n_traces); vf_count("pruned_revisits", n_pruned);
+		vf_obs("states=%ld", n_states);
+		if (ci == 0 && a2 == 1) vf_sample("sndbuf part: cfg{cache 2, con 2 s} prefix AR depth %d over {add, run, send buffer full at the next poll, reply, deliver 1 byte / all, clock +1 / +big, peer close, partial send}: %ld states, %ld transitions", depth, n_states, n_transitions);
+		alpha_main();
+		vf_case_end(n_traces > 0);
+	}
+}
+
 static void part_dfs2(void) {
 	static const int CFG_IDX[] = {1, 6, 2, 6};
 	int ci, p1, e1;
@@ -891,6 +917,7 @@ static void run(void) {
 	part_conf();
 	part_readd();
 	part_timeouts();
+	part_sndbuf();
 	for (ci = 0; ci < NCONFIGS; ci++) {
 		int d = depth;
 		if (!VF_THOROUGH && ci >= 4) d = depth - 1;
